@@ -5,7 +5,7 @@
 From Coq Require Import ZArith List Bool Lia Permutation.
 From Arsenal Require Import Util Budget BudgetProofs VamDev VamBlockList Vam VamInvMeta VamInv VamInvUpd VamInvDev.
 From Arsenal Require Import VamInvStep VamInvStep2 VamAcct VamAcctStep VamAcctStep2 VamMap VamMapStep.
-From Arsenal Require SyncMem SyncMemProofs.
+From Arsenal Require SyncMem SyncMemProofs VamFlush.
 Import ListNotations.
 Open Scope Z_scope.
 
@@ -701,15 +701,23 @@ Proof.
   destruct ur as [[]|ucode| |]; auto.
 Qed.
 
+(* the flushed range lies inside the live memory object of the allocation (VamFlush.flush_range_valid), so the
+   driver call is valid for the log; nonCoherentAtomSize >= 1 is a configuration assumption (cfg_acct) *)
 Lemma allocation_flush_inv v inval s off size :
+  1 <= c_atom c ->
   VamInvM v [] [] -> let '(v', r) := allocation_flush c v inval s off size in slot_post v v' s r.
 Proof.
-  intros HI. unfold allocation_flush. destruct (negb _); [apply slot_post_refl; auto|].
+  intros Hatom HI. unfold allocation_flush. destruct (a_allocated (get_alloc v s)) eqn:Ea; cbn [negb]; [|apply slot_post_refl; auto].
+  pose proof (VamFlush.flush_range_valid c Hc Hatom v s (get_alloc v s) off size (vm_s _ _ _ HI) (get_alloc_allocated _ _ Ea)) as F.
   destruct (flush_range c v (get_alloc v s) off size) as [[(roff & rsize)|]|code| |]; try (apply slot_post_refl; auto); try exact I.
+  destruct F as (d & Hf & R0 & R1 & R2 & _).
   pose proof (dev_flush_sameA c Hc Hmax Hlarge (v_m v) inval (a_mem (get_alloc v s)) roff rsize) as Hm.
-  pose proof (dev_flush_sameM (v_m v) inval (a_mem (get_alloc v s)) roff rsize) as Hm2.
-  destruct (dev_flush (v_m v) inval (a_mem (get_alloc v s)) roff rsize) as (m1 & code). cbn [fst] in Hm, Hm2.
-  apply slot_post_of. split; [apply VamInvM_mach_same; [auto|split; auto]|]. split; [apply tab_frame_set_m|apply lists_frame_set_m].
+  destruct (dev_flush_M ms0 (v_m v) inval (a_mem (get_alloc v s)) roff rsize (proj2 (vm_m _ _ _ HI))
+              (ex_intro _ d (conj Hf (conj R0 (conj R1 R2))))) as (Em & HL).
+  destruct (dev_flush (v_m v) inval (a_mem (get_alloc v s)) roff rsize) as (m1 & code). cbn [fst] in Hm, Em, HL.
+  apply slot_post_of. split; [|split; [apply tab_frame_set_m|apply lists_frame_set_m]].
+  split; [apply (VamAcctStep.VamInvA_mach_same c Hc Hmax Hlarge); [exact (vm_a _ _ _ HI)|exact Hm]|].
+  apply MM_mach_mems; [exact (vm_m _ _ _ HI)|exact Em|exact HL].
 Qed.
 
 
@@ -853,8 +861,6 @@ Qed.
 
 (* ---------------------------------------------------------------- machine changes of the resource functions *)
 
-Lemma dev_bind_sameX m image res mem off : mach_sameX m (fst (dev_bind m image res mem off)).
-Proof. split; [apply (dev_bind_sameA c Hc Hmax Hlarge)|apply dev_bind_sameM]. Qed.
 Lemma dev_requirements_sameX m image id : mach_sameX m (fst (dev_requirements m image id)).
 Proof. split; [apply (dev_requirements_sameA c Hc Hmax Hlarge)|apply dev_requirements_sameM]. Qed.
 Lemma dev_create_res_sameX m image kind req : rq_size req < 2 ^ 62 -> mach_sameX m (fst (fst (dev_create_res m image kind req))).
@@ -911,12 +917,18 @@ Proof. intros H. destruct r; cbn; auto; (split; [auto|apply tab_frame_refl]). Qe
 
 Lemma bind_memory_inv v s image res off : VamInvM v [] [] -> let '(v', r) := bind_memory v s image res off in res_post v v' s r.
 Proof.
-  intros HI. unfold bind_memory. destruct (res =? 0); [apply res_post_refl; auto|]. destruct (negb _); [apply res_post_refl; auto|].
+  intros HI. unfold bind_memory. destruct (res =? 0); [apply res_post_refl; auto|].
+  destruct (a_allocated (get_alloc v s)) eqn:Ea; cbn [negb]; [|apply res_post_refl; auto].
   match goal with |- context [match ?t with OK _ => _ | ER _ => _ | PANIC => _ | STUCK => _ end] => destruct t as [o|code| |] end;
     try (apply res_post_refl; auto); try exact I.
-  pose proof (dev_bind_sameX (v_m v) image res (a_mem (get_alloc v s)) o) as H.
-  destruct (dev_bind (v_m v) image res (a_mem (get_alloc v s)) o) as (m1 & code). cbn [fst] in H.
-  assert (P : VamInvM (set_m v m1) [] [] /\ tab_frame v (set_m v m1) [s]) by (split; [apply VamInvM_mach_same; auto|apply tab_frame_set_m]).
+  pose proof (dev_bind_sameA c Hc Hmax Hlarge (v_m v) image res (a_mem (get_alloc v s)) o) as H.
+  destruct (VamFlush.find_offset_valid c v s (get_alloc v s) (vm_s _ _ _ HI) (get_alloc_allocated _ _ Ea)) as (o' & d & _ & Hf & _).
+  destruct (dev_bind_M ms0 (v_m v) image res (a_mem (get_alloc v s)) o (proj2 (vm_m _ _ _ HI)) (ex_intro _ d Hf)) as (Em & HL).
+  destruct (dev_bind (v_m v) image res (a_mem (get_alloc v s)) o) as (m1 & code). cbn [fst] in H, Em, HL.
+  assert (P : VamInvM (set_m v m1) [] [] /\ tab_frame v (set_m v m1) [s]).
+  { split; [|apply tab_frame_set_m].
+    split; [apply (VamAcctStep.VamInvA_mach_same c Hc Hmax Hlarge); [exact (vm_a _ _ _ HI)|exact H]|].
+    apply MM_mach_mems; [exact (vm_m _ _ _ HI)|exact Em|exact HL]. }
   destruct (code =? 0); exact P.
 Qed.
 
